@@ -33,6 +33,7 @@ func genericReplay(c *core.Ctx, raw []byte) error {
 		FailAt   *int              `json:"fail_at_offset"`
 		Chunk    int               `json:"chunk"`
 		Partial  bool              `json:"error_with_data"`
+		Comment  int               `json:"comment_char"`
 	}
 	if err := json.Unmarshal(raw, &d); err != nil {
 		return err
@@ -96,6 +97,17 @@ func genericReplay(c *core.Ctx, raw []byte) error {
 			}
 			rerr := resolveVia(entry, db, depth)
 			fmt.Printf("entry point %d, max depth %d: error = %v\n%s", entry, depth, rerr, snapshotDB(db))
+		}
+		return nil
+	case d.File != nil && d.Comment != 0 && d.Comment != '#':
+		evs, ret, pnc := parseAllCfg(*d.File, parser.Config{CommentChar: uint8(d.Comment)})
+		fmt.Printf("parser configured with comment character %q: returned %v, panic %q\n", rune(d.Comment), ret, pnc)
+		for _, e := range evs {
+			if e.Err != "" {
+				fmt.Println("  err:", e.Err)
+			} else {
+				fmt.Println("  node:", nodeString(e.Node))
+			}
 		}
 		return nil
 	case d.File != nil:
